@@ -397,6 +397,16 @@ class DefaultDataManager(DataManager):
                     # The transfer that was producing it may have failed in the meantime
                     if primary_loc.data_type != DataType.PRIMARY:
                         continue
+                    # The existing copy may have a different name than the source path: inside a
+                    # destination directory, the new copy takes the name that is registered below
+                    link_path = StreamFlowPath(
+                        dst_path, context=self.context, location=dst_location
+                    )
+                    if (
+                        os.path.basename(primary_loc.path) != src_path.name
+                        and await link_path.is_dir()
+                    ):
+                        link_path /= src_path.name
                     # If yes, perform a symbolic link if possible
                     copy_tasks.append(
                         asyncio.create_task(
@@ -406,7 +416,7 @@ class DefaultDataManager(DataManager):
                                 src=primary_loc.path,
                                 dst_connector=dst_connector,
                                 dst_locations=[dst_location],
-                                dst=dst_path,
+                                dst=str(link_path),
                                 writable=writable,
                             )
                         )
